@@ -683,6 +683,9 @@ namespace Pistache::Http::Experimental
 
     void Connection::handleError(const char* error)
     {
+        // whatever was received of the response belongs to the request that failed
+        parser.reset();
+
         if (requestEntry)
         {
             if (requestEntry->timer)
@@ -704,6 +707,9 @@ namespace Pistache::Http::Experimental
 
     void Connection::handleTimeout()
     {
+        // a partially received response belongs to the request that timed out
+        parser.reset();
+
         if (requestEntry)
         {
             requestEntry->timer->disarm();
